@@ -55,7 +55,14 @@ def real_build(conds, acts, mt, gl, reqs):
     finally:
         commands.RequireCommand.loaded_extensions = saved
     if st == "ok":
-        res = "ok " + pyref.node_sexpr(val)
+        import io
+        t = io.StringIO()
+        try:
+            val.tosieve(target=t)
+            ser = t.getvalue().encode("utf-8").hex() or "e"
+        except Exception:  # noqa
+            ser = "crash"
+        res = "ok " + pyref.node_sexpr(val) + " ser=" + ser
     elif st == "hang":
         res = "hang"
     else:
